@@ -7,6 +7,9 @@
 // With MUTATE_SET=2 a second operator set is used instead: deletion of a guard (an if without else whose body ends in
 // return/continue/break/panic), deletion of a plain assignment, deletion of a defer, break <-> continue,
 // + <-> - and * <-> /, == <-> != outside if conditions, swap of two adjacent identifier arguments.
+// With MUTATE_SET=3: negation of an if condition that has an else, relational reversal (< <-> >, <= <-> >=),
+// swap of two results of a return, `return …, nil` in place of a returned error, integer literal n>=2 -> n+1,
+// a call of a sibling method with a similar name (Diff <-> DiffExcludeSrcNaN, FromTime <-> UntilTime, Min <-> Max …).
 package main
 
 import (
@@ -169,8 +172,57 @@ func collect(root string, target int) {
 				return true
 			})
 		}
+		set3 := os.Getenv("MUTATE_SET") == "3"
+		if set3 {
+			siblings := map[string]string{"Diff": "DiffExcludeSrcNaN", "DiffExcludeSrcNaN": "Diff", "DiffPoints": "DiffPointsExcludeSrcNaN", "DiffPointsExcludeSrcNaN": "DiffPoints",
+				"FromTime": "UntilTime", "UntilTime": "FromTime", "intervalForWrite": "interval", "interval": "intervalForWrite", "SrcBase": "DestBase", "DestBase": "SrcBase",
+				"SrcRelPath": "DestRelPath", "DestRelPath": "SrcRelPath", "Flush": "Reset", "secondsPerPoint": "numberOfPoints", "numberOfPoints": "secondsPerPoint",
+				"Add": "Sub", "Sub": "Add", "HasPrefix": "HasSuffix", "Max": "Min", "Min": "Max", "First": "Last", "Last": "First", "Sum": "Average", "Average": "Sum"}
+			ast.Inspect(f, func(nd ast.Node) bool {
+				switch x := nd.(type) {
+				case *ast.IfStmt:
+					if x.Else != nil {
+						before := render(fset, x.Cond)
+						add(x.Cond.Pos(), "negate-if-else", "if "+before+" {..} else {..} -> if !("+before+")", func() { x.Cond = &ast.UnaryExpr{Op: token.NOT, X: &ast.ParenExpr{X: x.Cond}} })
+					}
+				case *ast.BinaryExpr:
+					swap := map[token.Token]token.Token{token.LSS: token.GTR, token.GTR: token.LSS, token.LEQ: token.GEQ, token.GEQ: token.LEQ}
+					if to, ok := swap[x.Op]; ok {
+						from := x.Op
+						add(x.OpPos, "op:"+from.String()+"->"+to.String(), render(fset, x), func() { x.Op = to })
+					}
+				case *ast.ReturnStmt:
+					if len(x.Results) >= 2 {
+						a, b := x.Results[0], x.Results[1]
+						if render(fset, a) != render(fset, b) && render(fset, a) != "nil" && render(fset, b) != "nil" {
+							add(x.Pos(), "swap-results", render(fset, x)+": results 0 <-> 1", func() { x.Results[0], x.Results[1] = x.Results[1], x.Results[0] })
+						}
+					}
+					if n := len(x.Results); n >= 1 {
+						last := x.Results[n-1]
+						if id, ok := last.(*ast.Ident); ok && (id.Name == "err" || strings.HasPrefix(id.Name, "err")) && id.Name != "nil" {
+							add(x.Pos(), "return-nil-error", render(fset, x)+" -> nil error", func() { x.Results[n-1] = ast.NewIdent("nil") })
+						}
+					}
+				case *ast.BasicLit:
+					if x.Kind == token.INT {
+						if v, err := strconv.Atoi(x.Value); err == nil && v >= 2 && v < 100000 {
+							old := x.Value
+							add(x.Pos(), "const+1", old+" -> "+strconv.Itoa(v+1), func() { x.Value = strconv.Itoa(v + 1) })
+						}
+					}
+				case *ast.SelectorExpr:
+					if to, ok := siblings[x.Sel.Name]; ok {
+						from := x.Sel.Name
+						add(x.Sel.Pos(), "sibling", render(fset, x)+" -> ."+to, func() { x.Sel = ast.NewIdent(to) })
+						_ = from
+					}
+				}
+				return true
+			})
+		}
 		ast.Inspect(f, func(nd ast.Node) bool {
-			if set2 {
+			if set2 || set3 {
 				return false
 			}
 			switch x := nd.(type) {
